@@ -106,9 +106,9 @@ def addition_candidates(active):
     """Types a newer version adds after the marker."""
     c = [T.TBool(), T.TInt(0, 255), T.TInt(-70000, 5), T.TInt(0, 2 ** 64 - 1), T.TNull(), T.TOctets(0, 5), T.TOctets(3, 3),
          T.TOctets(0, 300), T.TReal(32), T.TReal(64), T.TEnum([('va', 0), ('vb', 1), ('vc', 300)]),
-         T.TSeqOf(0, 3, T.TInt(0, 7)), T.TChoice([('cp', T.TBool()), ('cq', T.TInt(0, 70000))])]
+         T.TSeqOf(0, 3, T.TInt(0, 7))]
     if 'oer-addition-static-length' not in active:
-        c += [T.TSeq([T.Member('sx', T.TBool()), T.Member('sy', T.TOctets(0, 3))]), T.TSeqOf(2, 2, T.TBool()),
+        c += [T.TChoice([('cp', T.TBool()), ('cq', T.TInt(0, 70000))]),T.TSeq([T.Member('sx', T.TBool()), T.Member('sy', T.TOctets(0, 3))]), T.TSeqOf(2, 2, T.TBool()),
               T.TSeqOf(0, 2, T.TOctets(0, 3))]
     return c
 
